@@ -91,13 +91,32 @@ class _TimeShim:
         return rig.clock
 
 
+class _SocketShim:
+    """`socket` as seen by pyrtma.manager: identical, except that sockets it creates get SO_REUSEADDR before bind.
+    Thousands of short-lived managers per minute otherwise leave their (ephemeral) listening ports blocked by TIME_WAIT
+    remnants for 60 s and bind(port 0) starts failing with EADDRINUSE - a property of the test host, not of pyrtma."""
+
+    def __getattr__(self, name):
+        return getattr(socket, name)
+
+    def socket(self, *a, **k):
+        s = socket.socket(*a, **k)
+        try:
+            s.setsockopt(socket.SOL_SOCKET, socket.SO_REUSEADDR, 1)
+        except OSError:
+            pass
+        return s
+
+
 _SHIMS = (_SelectShim(), _RandomShim(), _TimeShim())
+_SOCKET_SHIM = _SocketShim()
 _WRAPPED = False
 
 
 def _install():
     global _WRAPPED
     pm.select, pm.random, pm.time = _SHIMS
+    pm.socket = _SOCKET_SHIM
     if _WRAPPED:
         return
     _WRAPPED = True
@@ -149,7 +168,13 @@ class ManagerRig:
                  clock0=1000.0):
         global _ACTIVE
         if _ACTIVE is not None:
-            raise RuntimeError("one rig per process at a time")
+            # a previous case was abandoned (watchdog / harness exception) before its rig was closed
+            stale, _ACTIVE = _ACTIVE, None
+            try:
+                stale.close()
+            except Exception:
+                pass
+            _ACTIVE = None
         self.stepped = stepped
         self.timecode = timecode
         self.virtual_clock = virtual_clock
@@ -171,8 +196,19 @@ class ManagerRig:
         _ACTIVE = self
         _install()
         level = logging.INFO if loud else logging.CRITICAL + 10
-        self.mgr = pm.MessageManager("127.0.0.1", 0, timecode=timecode, log_level=level,
-                                     send_msg_timing=send_msg_timing)
+        self.mgr = None
+        for attempt in range(120):
+            try:
+                self.mgr = pm.MessageManager("127.0.0.1", 0, timecode=timecode, log_level=level,
+                                             send_msg_timing=send_msg_timing)
+                break
+            except OSError as e:
+                # EADDRINUSE from bind(port 0): the ephemeral port range is momentarily exhausted by TIME_WAIT sockets
+                # of earlier cases (a property of the test host, not of pyrtma) -> wait and retry
+                if e.errno != 98 or attempt == 119:
+                    _ACTIVE = None
+                    raise
+                _real_time.sleep(0.5)
         if loud:
             try:
                 self.mgr.logger.enable_console = False
@@ -399,7 +435,7 @@ class ManagerRig:
             self.cv.notify_all()
         self.thread.join(2.0)
         for c in self.clients:
-            c.close()
+            c.close(rst=True)   # reset instead of FIN at teardown: no TIME_WAIT, keeps the ephemeral port range free
         self.drainer.close()
         try:
             for s in list(self.mgr.modules.keys()):
